@@ -416,6 +416,16 @@ func SeedBuilder(env *world.Env, name string) *Builder {
 	case "handover":
 		b.sft()
 		b.Must(SysCall(A0, vmcommon.BuiltInFunctionESDTNFTCreateRoleTransfer, S, C1))
+	case "zero-credit":
+		// an account frozen while it holds nothing keeps a zero-balance entry; a credit flagged
+		// return-after-error (the paying side of a same-shard return) adds to that decoded zero
+		b.fung()
+		b.Must(SysCall(E2, vmcommon.BuiltInFunctionESDTFreeze, F))
+		ret := ESDTTransfer(A0, E2, F, 1)
+		ret.ReturnAfterError = true
+		b.Must(ret)
+		b.Must(SysCall(Z1, vmcommon.BuiltInFunctionESDTFreeze, F))
+		b.Must(SysCall(Z1, vmcommon.BuiltInFunctionESDTUnFreeze, F))
 	default:
 		panic("unknown seed " + name)
 	}
